@@ -224,6 +224,26 @@ func (g *gen) subs(n int, depth int, descended bool) *jv.V {
 	return arr
 }
 
+// alternatives draws the value of allOf/anyOf/oneOf: usually 1-3 subschemas, now and then a long
+// list (9-13) of small, mutually exclusive alternatives as tagged unions have them, so that an
+// instance can fail every one of them.
+func (g *gen) alternatives(d int, desc bool) *jv.V {
+	if !g.coin(14, "longlist") {
+		return g.subs(1+g.intn(3, "n"), d, desc)
+	}
+	n := 9 + g.intn(5, "nlong")
+	arr := &jv.V{K: jv.Arr, A: []*jv.V{}}
+	tagged := g.coin(2, "tagged")
+	for i := 0; i < n; i++ {
+		if tagged {
+			arr.A = append(arr.A, obj(jv.Member{K: "properties", V: obj(jv.Member{K: "kind", V: obj(jv.Member{K: "const", V: str("k" + strconv.Itoa(i))})})}, jv.Member{K: "required", V: jv.ArrV(str("kind"))}))
+		} else {
+			arr.A = append(arr.A, obj(jv.Member{K: "const", V: jv.NumV(strconv.Itoa(100 + i))}))
+		}
+	}
+	return arr
+}
+
 func (g *gen) strList(min, max int) *jv.V {
 	n := min + g.intn(max-min+1, "nstr")
 	arr := &jv.V{K: jv.Arr, A: []*jv.V{}}
@@ -299,9 +319,9 @@ func init() {
 			}
 			s.Set("dependentRequired", o)
 		},
-		"allOf": func(g *gen, s *jv.V, d int, desc bool) { s.Set("allOf", g.subs(1+g.intn(3, "n"), d, desc)) },
-		"anyOf": func(g *gen, s *jv.V, d int, desc bool) { s.Set("anyOf", g.subs(1+g.intn(3, "n"), d, desc)) },
-		"oneOf": func(g *gen, s *jv.V, d int, desc bool) { s.Set("oneOf", g.subs(1+g.intn(3, "n"), d, desc)) },
+		"allOf": func(g *gen, s *jv.V, d int, desc bool) { s.Set("allOf", g.alternatives(d, desc)) },
+		"anyOf": func(g *gen, s *jv.V, d int, desc bool) { s.Set("anyOf", g.alternatives(d, desc)) },
+		"oneOf": func(g *gen, s *jv.V, d int, desc bool) { s.Set("oneOf", g.alternatives(d, desc)) },
 		"not":   func(g *gen, s *jv.V, d int, desc bool) { s.Set("not", g.schema(d-1, desc, false)) },
 		"if": func(g *gen, s *jv.V, d int, desc bool) {
 			s.Set("if", g.schema(d-1, desc, false))
